@@ -16,7 +16,8 @@ LEVEL_TEXT = ('nnx.vmap with StateAxes assignments of Variable types / path filt
               'carry, forward side effects applied once); inconsistent aliasing across arguments must be rejected.'
               ' Further streams: negative axes, call histories with rejected calls on one grad object, NNX objects of'
               ' every kind in the scan carry, argnums in any order and as negative positions.'
-              ' Round f: bare_variables (stateful arguments that are bare nnx.Variables under vmap / grad / scan).')
+              ' Round f: bare_variables (stateful arguments that are bare nnx.Variables under vmap / grad / scan).'
+              ' Round g: in_axes given as a list.')
 LEVEL_NOTE = 'Reference = the cell formula written over raw arrays + jax.grad (trusted); float32 same-program tolerance.'
 TECHNIQUE = 'runtime monitoring: shadow-model loop/stack/autodiff reference on the real nnx.vmap / nnx.scan / nnx.grad'
 RULE = ('case = (transform, axis assignment per Variable group, sizes, in/out axes, reverse, argnums/DiffState filter, has_aux). distinct = '
